@@ -97,7 +97,7 @@ def gen_scc(rng, tier):
             edges = [p for p in pairs if rng.random() < rng.choice([0.15, 0.3, 0.5])]
             cases.append(scc_case("sccq%d" % i, sc.KEYS4[:4], edges, rng, 2))
     # dense graphs on 5..9 nodes: high in-/out-degrees, parallel edges, many different component structures
-    for i in range(6000 if tier == "thorough" else 500):
+    for i in range(6000 if tier == "thorough" else 1200):
         n = rng.randint(5, 9)
         keys = rng.sample(range(1, 500), n)
         p = rng.choice([0.15, 0.25, 0.4, 0.6])
@@ -109,7 +109,7 @@ def gen_scc(rng, tier):
         if rng.random() < 0.3:
             edges += [rng.choice(edges) for _ in range(rng.randint(1, 4))] if edges else []
         cases.append(scc_case("sccD%d" % i, keys, edges, rng, 2))
-    for i in range(3000 if tier == "thorough" else 150):
+    for i in range(3000 if tier == "thorough" else 400):
         n = rng.randint(2, 30)
         keys = rng.sample(range(1, 500), n)
         m = rng.randint(0, 3 * n)
@@ -121,7 +121,7 @@ def gen_scc(rng, tier):
         # parallel edges allowed
         cases.append(scc_case("sccR%d" % i, keys, edges, rng, 3))
     # graphs with a history: parallel edges connected and disconnected again, isolates, refused try_connects, then scc
-    for i in range(3000 if tier == "thorough" else 250):
+    for i in range(3000 if tier == "thorough" else 600):
         n = rng.randint(2, 7)
         keys = rng.sample(range(1, 500), n)
         steps = ["new %d 0" % k for k in keys]
@@ -285,7 +285,7 @@ def gen_container(cls, rng, tier):
         steps += ["gdot 0", "glen 0", "gvec 0", "gorph 0"]
         cases.append(Case("dotE%s%d" % (cls, variant), cls, steps, dict(kind="dot-empty-container")))
     # dense hubs: few nodes, many edges in both directions, then removals, then the views
-    for ci in range(1500 if tier == "thorough" else 120):
+    for ci in range(1500 if tier == "thorough" else 300):
         n = rng.randint(3, 6)
         ks = rng.sample(range(1, 60), n)
         steps = ["new %d %d" % (k, rng.randint(-3, 3)) for k in ks] + [rng.choice(GNEW)] + ["gins 0 %d" % u for u in range(n)]
@@ -298,7 +298,7 @@ def gen_container(cls, rng, tier):
             steps += ["snap"] + (QUERIES_D if cls == "D" else QUERIES_U)
         cases.append(Case("kh%s%d" % (cls, ci), cls, steps, dict(kind="dense-hub-history")))
     # random long histories
-    for ci in range(2000 if tier == "thorough" else 140):
+    for ci in range(2000 if tier == "thorough" else 400):
         n = rng.randint(2, 8) if ci % 3 else rng.randint(9, 28)
         ks = rng.sample(range(1, 60), n)
         steps = ["new %d %d" % (k, rng.randint(-3, 3)) for k in ks] + [rng.choice(GNEW), rng.choice(GNEW)]
@@ -358,7 +358,7 @@ def gen_container(cls, rng, tier):
         cases.append(Case("kL%s%d" % (cls, ci), cls, steps, dict(kind="large-container-history")))
     # twins: several live node objects share a key (rejected duplicates, members replaced after remove while the old
     # object is still linked); connect / try_connect / disconnect / lookups between all of them, then the views
-    for ci in range(1500 if tier == "thorough" else 120):
+    for ci in range(1500 if tier == "thorough" else 300):
         n = rng.randint(3, 7)
         pool = rng.sample(range(1, 30), rng.randint(2, 3))
         ks = [rng.choice(pool) for _ in range(n)]
@@ -585,7 +585,7 @@ def gen_roundtrip(cls, rng, tier):
                 steps += ["gser 0 %s" % fmt, "grt 0 %s" % fmt]
             cases.append(Case("rt2%s%d" % (cls, idx), cls, steps, dict(kind="small-graph-roundtrip", edges=len(g.edges))))
             idx += 1
-    for i in range(2000 if tier == "thorough" else 80):
+    for i in range(2000 if tier == "thorough" else 200):
         g = sc.random_graph(cls, rng, maxn=40, maxe=120)
         g.vals = [rng.randint(-10 ** 6, 10 ** 6) for _ in g.vals]
         steps = g.steps() + ["snap", "gnew"]
@@ -612,7 +612,7 @@ def gen_roundtrip(cls, rng, tier):
         cases.append(Case("rtL%s%d" % (cls, i), cls, steps, dict(kind="large-graph-roundtrip", nodes=n, edges=len(edges))))
     # graphs with a history: parallel edges made from both ends, self-loops, then disconnect / isolate / refused try_connect /
     # reconnect, and only then the round trip (decided against the implementation's own snapshot taken just before)
-    for i in range(2000 if tier == "thorough" else 150):
+    for i in range(2000 if tier == "thorough" else 400):
         n = rng.randint(2, 5)
         ks = rng.sample(range(1, 60), n)
         steps = ["new %d %d" % (k, rng.randint(-5, 5)) for k in ks]
@@ -848,7 +848,7 @@ def gen_untrusted(cls, rng, tier):
         seeds.append(g)
     for g in list(sc.all_graphs(cls, 3, 2))[::17]:
         seeds.append(g)
-    for i in range(200 if tier == "thorough" else 12):
+    for i in range(200 if tier == "thorough" else 40):
         seeds.append(sc.random_graph(cls, rng, maxn=6, maxe=10))
     for gi, g in enumerate(seeds):
         doc = valid_doc(g)
